@@ -27,6 +27,16 @@ def config_signal_only(names):
     return out
 
 
+def config_signal_conditioned(names):
+    """the activation condition itself reads the signal (and holds for every sample): the period opens with the first
+    sample and is still open when the play ends — the final round brings no sample, and must close it all the same"""
+    out = CFG_HEAD
+    for i, n in enumerate(names):
+        out += "  m%d audits only while [a s] >= 0\n  m%d expects %s: [a s] > 0\n" % (i, i, n)
+    out += "end\n"
+    return out
+
+
 def config_two_periods(names):
     out = CFG_HEAD
     for i, n in enumerate(names):
@@ -161,20 +171,21 @@ def run(tier, seed):
     def judge_signal_only(word):
         if not word:
             return
-        r = impl.call("audition", Args={"Parse": {"Text": config_signal_only(names)}, "Events": events_for(word), "EpochOffset": 1000.0})
-        if r.get("Panicked") or r.get("harnessCrash") or r.get("Err"):
-            rep.violation("audit loop failed on a scripted period", {"word": wstr(word), "result": r}, tags={"kind": "crash"})
-            return
-        reps = reports_by_auditor(r["Events"])
-        for i, n in enumerate(names):
-            codes = ",".join(reps.get("m%d" % i, [])) or "-"
-            rep.case((n, "sig-only", wstr(word)))
-            rep.count("signal-only")
-            o = model.ask("C01 oracle %s %s %s" % (hexn[n], wstr(word), codes))
-            if o != "ok":
-                rep.count("O-fail")
-                rep.ofail.append({"modality": n, "word": wstr(word), "impl_reports": codes, "oracle": o,
-                                  "origin": "signal-only predicate", "config": config_signal_only(names), "events": events_for(word)})
+        for what, cfgtext in (("signal-only", config_signal_only(names)), ("signal-conditioned", config_signal_conditioned(names))):
+            r = impl.call("audition", Args={"Parse": {"Text": cfgtext}, "Events": events_for(word), "EpochOffset": 1000.0})
+            if r.get("Panicked") or r.get("harnessCrash") or r.get("Err"):
+                rep.violation("audit loop failed on a scripted period", {"word": wstr(word), "result": r}, tags={"kind": "crash"})
+                return
+            reps = reports_by_auditor(r["Events"])
+            for i, n in enumerate(names):
+                codes = ",".join(reps.get("m%d" % i, [])) or "-"
+                rep.case((n, what, wstr(word)))
+                rep.count(what)
+                o = model.ask("C01 oracle %s %s %s" % (hexn[n], wstr(word), codes))
+                if o != "ok":
+                    rep.count("O-fail")
+                    rep.ofail.append({"modality": n, "word": wstr(word), "impl_reports": codes, "oracle": o,
+                                      "origin": what + " predicate", "config": cfgtext, "events": events_for(word)})
 
     def judge_pair(w1, w2):
         """two activation periods of the same auditors: each period is judged on its own words"""
